@@ -90,6 +90,8 @@ def validate_sparse(seed=0, rounds=60):
             raise ModelMismatch("transpose(copy=True) aliasing")
         if np.shares_memory(r.astype(float).data, r.data):
             raise ModelMismatch("real astype aliases (model assumes copy)")
+        if (r.astype(float, copy=False) is r) != (m.astype(float, copy=False) is m):
+            raise ModelMismatch("astype(copy=False) identity")
         _same_dense('toarray', r.toarray(), m.toarray())
         _same_dense('dense_terms', r.toarray(), M.dense_terms(m))
         _same_dense('dense_terms(real)', r.toarray(), M.dense_terms(r))
